@@ -135,6 +135,29 @@ __CPROVER_ensures(vf_ini_post_gen(ini, buf, buf_size, __CPROVER_return_value,
     buf_size_ret))
 ;
 
+/* ----------------------------------------------------------------- allocation ---- */
+#ifdef VF_STUBS_INI_H	/* only in translation units that model the allocator (stubs/ini.h) */
+/* a new record: header + size + 16 bytes requested, the capacity recorded in the record is
+ * exactly the data area of that request (never the whole allocation), everything zero */
+static ini_line_p
+ini_line_alloc__int(const size_t size)
+__CPROVER_requires(size <= VF_INI_FLDCAP)
+__CPROVER_assigns(__CPROVER_object_whole(vf_ini_req), __CPROVER_errno)
+__CPROVER_ensures(__CPROVER_return_value == NULL ||
+    (__CPROVER_rw_ok(__CPROVER_return_value, sizeof(ini_line_t)) &&
+     __CPROVER_POINTER_OFFSET(__CPROVER_return_value) == 0 &&
+     __CPROVER_return_value->data == (uint8_t *)(__CPROVER_return_value + 1) &&
+     VF_INI_REQ(__CPROVER_return_value) <= __CPROVER_OBJECT_SIZE(__CPROVER_return_value) &&
+     VF_INI_REQ(__CPROVER_return_value) == sizeof(ini_line_t) + size + INI_LINE_ALLOC_PADDING &&
+     __CPROVER_return_value->data_size == size &&
+     __CPROVER_return_value->data_allocated_size ==
+	VF_INI_REQ(__CPROVER_return_value) - sizeof(ini_line_t) &&
+     __CPROVER_return_value->type == INI_LINE_TYPE_EMPTY_LINE &&
+     __CPROVER_return_value->name == NULL && __CPROVER_return_value->val == NULL &&
+     __CPROVER_return_value->name_size == 0 && __CPROVER_return_value->val_size == 0))
+;
+#endif
+
 /* -------------------------------------------------------------------- parsing ---- */
 int
 ini_buf_parse(const ini_p ini, const uint8_t *buf, const size_t buf_size)
@@ -144,7 +167,7 @@ __CPROVER_requires(buf == NULL || (__CPROVER_r_ok(buf, buf_size) &&
     __CPROVER_POINTER_OFFSET(buf) == 0 && __CPROVER_OBJECT_SIZE(buf) == buf_size))
 __CPROVER_assigns(ini->lines, ini->lines_count, ini->lines_allocated)
 __CPROVER_assigns(ini->lines != NULL: __CPROVER_object_whole(ini->lines))
-__CPROVER_assigns(__CPROVER_object_whole(vf_ini_req))	/* ghost table of the allocator stubs */
+__CPROVER_assigns(__CPROVER_object_whole(vf_ini_req), __CPROVER_errno) /* allocator stubs: ghost table, errno */
 __CPROVER_frees(ini->lines)
 __CPROVER_ensures(vf_ini_post_parse(ini, __CPROVER_old(ini->lines_count), buf, buf_size,
     __CPROVER_return_value))
@@ -168,7 +191,7 @@ __CPROVER_assigns(ini->lines != NULL && VF_INI_LINE_TGT(0): __CPROVER_object_who
 __CPROVER_assigns(ini->lines != NULL && VF_INI_LINE_TGT(1): __CPROVER_object_whole(ini->lines[1]))
 __CPROVER_assigns(ini->lines != NULL && VF_INI_LINE_TGT(2): __CPROVER_object_whole(ini->lines[2]))
 __CPROVER_assigns(ini->lines != NULL && VF_INI_LINE_TGT(3): __CPROVER_object_whole(ini->lines[3]))
-__CPROVER_assigns(__CPROVER_object_whole(vf_ini_req))	/* ghost table of the allocator stubs */
+__CPROVER_assigns(__CPROVER_object_whole(vf_ini_req), __CPROVER_errno) /* allocator stubs: ghost table, errno */
 __CPROVER_frees(ini->lines)
 __CPROVER_frees(ini->lines != NULL && VF_INI_LINE_TGT(0): ini->lines[0])
 __CPROVER_frees(ini->lines != NULL && VF_INI_LINE_TGT(1): ini->lines[1])
